@@ -34,6 +34,9 @@ class ConditionalExpressionTransformer(converter.Base):
             expr_repr)
     '''
     expr_repr = parser.unparse(node.test, include_encoding_marker=False).strip()
+    # Conditional expressions nested in the test or in either branch must be
+    # converted as well.
+    node = self.generic_visit(node)
     return templates.replace_as_expression(
         template,
         test=node.test,
